@@ -150,10 +150,7 @@ class Body:
         nodes = list(self.rpo())
         ns = set(nodes)
         EXIT = -1
-        # loop back edges are left out: what an earlier round of a loop decided (leave / go on) is not a condition of the steps of
-        # a later round in the sense used here - only the conditions inside the round and the loop's own entry test are
-        dom = self.dominators()
-        succ = {b: ([x for x in self.succs(b) if x in ns and not (x in dom.get(b, ()))] or [EXIT]) for b in nodes}
+        succ = {b: ([x for x in self.succs(b) if x in ns] or [EXIT]) for b in nodes}
         pdom = {b: set(ns) | {EXIT} for b in nodes}
         pdom[EXIT] = {EXIT}
         changed = True
@@ -186,7 +183,7 @@ class Body:
                     continue
                 if x in pdom[s] and x != s:
                     continue            # x post-dominates the branch: not decided there
-                if any((y in pdom and x in pdom[y]) for y in self.succs(s) if y not in self.dominators().get(s, ())):
+                if any((y in pdom and x in pdom[y]) for y in self.succs(s)):
                     out.add(s)
                     work.append(s)
         return out
